@@ -5,6 +5,7 @@
      @RAPIDPROGDEF name text                = ok                                   context line: parse and remember the TRANSLATED declaration;
                                                                                    ok iff printing the parsed declaration gives the text back
      RAPIDPROG     name eqb                 = same                                 model: rdecl_eqb <translated> <canonical>
+     RAPIDPROG     name diff                = none                                 model: the first node at which the two printed declarations differ
      RAPIDPROGRUN  schema message options seed = ok                                the interpreter on the TRANSLATED program, on a pseudo-random
                                                                                    tape made from the seed: its outcome must be RapidGen.gen's and
                                                                                    lie in rapid_in_range; the statement rapidprog_correct
@@ -175,6 +176,20 @@ let decl_p (s : string) : rdecl =
              rf_body = List.map stmt_p b }
   | _ -> bad "declaration"
 
+(* ---- where two printed declarations differ: the path (child indexes) to the first differing node, and both nodes ---- *)
+let rec sx_s = function A a -> a | Q s -> quote s | L l -> "(" ^ String.concat " " (List.map sx_s l) ^ ")"
+let clip160 s = if String.length s > 160 then String.sub s 0 160 ^ "..." else s
+let head_of = function L (A h :: _) -> h | A a -> a | Q _ -> "\"\"" | L _ -> "()"
+let rec first_diff (path : string) (a : sx) (b : sx) : string option =
+  if a = b then None
+  else match a, b with
+    | L la, L lb when List.length la = List.length lb && (match la, lb with A x :: _, A y :: _ -> x = y | _ -> true) ->
+      let rec go i xs ys = match xs, ys with
+        | x :: xs', y :: ys' -> (match first_diff (path ^ "/" ^ head_of a ^ "." ^ string_of_int i) x y with Some d -> Some d | None -> go (i + 1) xs' ys')
+        | _ -> None in
+      go 0 la lb
+    | _ -> Some ("at " ^ (if path = "" then "/" else path) ^ ": canonical " ^ clip160 (sx_s a) ^ " | translated " ^ clip160 (sx_s b))
+
 (* ---- the translated declarations, in source order ---- *)
 let defs : (string * rdecl) list ref = ref []
 let program () : rdecl list = List.rev_map snd !defs
@@ -197,6 +212,14 @@ let rapidprog_eval (fn : string) (args : string list) : string =
   | "RAPIDPROG", [ "imports" ] -> String.concat " " (List.map str_of canon_rapidproto_imports)
   | "RAPIDPROG", [ "decls" ] -> String.concat " " (List.map (fun d -> decl_kind d ^ ":" ^ str_of (rdecl_name d)) canon_rapidproto)
   | "RAPIDPROG", [ name ] -> (match canon_decl name with Some d -> decl_s d | None -> "-")
+  | "RAPIDPROG", [ name; "diff" ] ->
+    (match List.assoc_opt name !defs, canon_decl name with
+     | None, _ -> "no-translated-declaration"
+     | _, None -> "no-canonical-declaration"
+     | Some d, Some c ->
+       (match parse_sx (decl_s c), parse_sx (decl_s d) with
+        | [ a ], [ b ] -> (match first_diff "" a b with Some m -> m | None -> "none")
+        | _ -> "unparsable"))
   | "RAPIDPROG", [ name; "eqb" ] ->
     (match List.assoc_opt name !defs, canon_decl name with
      | None, _ -> "no-translated-declaration"
